@@ -32,6 +32,12 @@ func (t *Task) sendGrant(g grant) {
 }
 
 //go:norace
+func (t *Task) sendKill() bool {
+	t.sendGrant(grant{kill: true})
+	return true
+}
+
+//go:norace
 func (t *Task) waitGrant() grant {
 	for t.ho.granted == 0 {
 		runtime.Gosched()
